@@ -198,7 +198,13 @@ impl Scenario for Udp {
             for _ in 0..n {
                 let f = rng.usize_below(flows.len());
                 match rng.below(12) {
-                    0..=4 => ops.push(UOp::Rec { flow: f, kind: RecKind::Valid, payload: rng.size(1, 1400) as usize, app: rng.usize_below(APPS.len()) }),
+                    0..=4 => {
+                        // sometimes a burst on one pair (several queries in flight)
+                        let burst = if rng.chance(1, 4) { 2 + rng.usize_below(3) } else { 1 };
+                        for _ in 0..burst {
+                            ops.push(UOp::Rec { flow: f, kind: RecKind::Valid, payload: rng.size(1, 1400) as usize, app: rng.usize_below(APPS.len()) });
+                        }
+                    }
                     5 | 6 => ops.push(UOp::Reply { flow: f, len: rng.size(1, 1400) as usize }),
                     7 => ops.push(UOp::Unsolicited { flow: f, len: rng.size(1, 200) as usize }),
                     8 => ops.push(UOp::SocketError { flow: f, code: *rng.pick(&[libc::ECONNREFUSED, libc::EHOSTUNREACH, libc::ENETDOWN]) }),
@@ -637,6 +643,96 @@ async fn run(plan: UPlan, flows_mode: bool) -> Obs {
     o
 }
 
+/// What happened on one pair, in time order: (instant, is_reply). Replies count when the
+/// world could hand them to the flow's socket.
+fn flow_events(o: &Obs, f: usize, dst: SocketAddr) -> Vec<(u64, bool)> {
+    let mut v: Vec<(u64, bool)> = o.udp_sent.iter().filter(|s| s.dst == dst).map(|s| (s.t_us, false)).collect();
+    v.extend(o.replies_injected.iter().filter(|r| r.1 == f && r.3).map(|r| (r.4, true)));
+    v.sort();
+    v
+}
+
+/// Reference flow table for one pair: must the socket be open just before instant `at`?
+/// Events are (time, is_reply). Some(true) = open, Some(false) = closed, None = the expiry
+/// latitude [T, T + T/4] (or an earlier undecided instant) leaves it open.
+fn flow_expected(events: &[(u64, bool)], is_dns: bool, t: u64, at: u64) -> Option<bool> {
+    let eps = 5_000u64;
+    let mut alive = false;
+    let mut last = 0u64;
+    let mut pending = 0i64;
+    // the flow may or may not have expired inside the latitude
+    let mut unsure = false;
+    // port 53 only: the number of unanswered queries is not known (an incarnation may have
+    // been replaced inside the latitude), and an answer arrived since: liveness unknown
+    let mut pending_unknown = false;
+    let mut limbo = false;
+    for (te, is_reply) in events.iter().filter(|e| e.0 < at).chain(std::iter::once(&(at, true)).filter(|_| false)) {
+        // time passes up to this event
+        if alive || limbo {
+            let idle = *te - last;
+            if idle > t + t / 4 + eps {
+                alive = false;
+                unsure = false;
+                pending = 0;
+                pending_unknown = false;
+                limbo = false;
+            } else if idle + eps >= t {
+                unsure = true;
+            }
+        }
+        if *is_reply {
+            if alive || limbo {
+                last = *te;
+                if is_dns {
+                    if pending_unknown {
+                        limbo = true;
+                    } else {
+                        pending -= 1;
+                        if pending <= 0 && !unsure {
+                            alive = false;
+                            pending = 0;
+                        } else if pending <= 0 {
+                            limbo = true;
+                        }
+                    }
+                }
+            }
+        } else {
+            if unsure {
+                // the old incarnation continues or a new one starts here
+                if is_dns {
+                    pending_unknown = true;
+                }
+                unsure = false;
+            } else if !alive && !limbo {
+                pending = 0;
+            }
+            if limbo {
+                // a datagram certainly makes the pair alive again, with unknown history
+                limbo = false;
+                pending_unknown = is_dns;
+            }
+            alive = true;
+            last = *te;
+            pending += 1;
+        }
+    }
+    if alive || limbo {
+        let idle = at - last;
+        if idle > t + t / 4 + eps {
+            return Some(false);
+        }
+        if idle + eps >= t {
+            return None;
+        }
+    }
+    if limbo || unsure {
+        None
+    } else {
+        Some(alive)
+    }
+}
+
 fn judge(plan: &UPlan, o: &Obs, flows_mode: bool, out: &mut Outcome) {
     if let Some(e) = &o.setup_error {
         out.violate("HARNESS", "udp-setup", e.clone());
@@ -826,32 +922,54 @@ fn judge(plan: &UPlan, o: &Obs, flows_mode: bool, out: &mut Outcome) {
         // per flow: must the socket be open / closed at this instant?
         for (f, (_, dst)) in flows.iter().enumerate() {
             let is_dns = dst.port() == 53;
-            let acts: Vec<u64> = activity[f].iter().cloned().filter(|a| *a <= snap.t_us).collect();
+            let errored = broken[f] || o.errors_injected.iter().any(|e| e.1 == f && e.2 <= snap.t_us);
+            if errored {
+                continue;
+            }
             let sock_open = o
                 .udp_binds
                 .iter()
                 .filter(|b| o.udp_sent.iter().any(|s| s.sock == b.0 && s.dst == *dst))
                 .any(|b| snap.open_socks.contains(&b.0));
-            let errored = o.errors_injected.iter().any(|e| e.1 == f && e.2 <= snap.t_us);
-            if let Some(last) = acts.iter().max() {
-                let idle = snap.t_us - last;
-                if idle > t + t / 4 + eps + 2_000 && sock_open {
-                    out.violate(
-                        "C07",
-                        format!("udp:{}:socket-not-released-after-expiry{}", proto, if is_dns { ":dns" } else { "" }),
-                        format!("flow {} idle for {} us (T = {} us) still has its socket open at op {}", f, idle, t, snap.op),
-                    );
-                }
-                if std::env::var_os("VERIF_DEBUG").is_some() {
-                    eprintln!("snap op {} t {} flow {} acts {:?} sock_open {} open {:?} binds {:?}", snap.op, snap.t_us, f, acts, sock_open, snap.open_socks, o.udp_binds);
-                }
-                if idle + eps < t && !sock_open && !is_dns && !errored {
-                    out.violate(
-                        "C07",
-                        format!("udp:{}:socket-released-early", proto),
-                        format!("flow {} idle for only {} us (T = {} us) has no socket at op {}", f, idle, t, snap.op),
-                    );
-                }
+            match flow_expected(&flow_events(o, f, *dst), is_dns, t, snap.t_us) {
+                Some(true) if !sock_open => out.violate(
+                    "C07",
+                    format!("udp:{}:socket-released-early{}", proto, if is_dns { ":dns" } else { "" }),
+                    format!("flow {} must be alive at op {} ({} us, T = {} us) but has no socket", f, snap.op, snap.t_us, t),
+                ),
+                Some(false) if sock_open => out.violate(
+                    "C07",
+                    format!("udp:{}:socket-not-released{}", proto, if is_dns { ":dns" } else { "" }),
+                    format!("flow {} must be gone at op {} ({} us, T = {} us) but its socket is open", f, snap.op, snap.t_us, t),
+                ),
+                _ => {}
+            }
+        }
+    }
+    // a datagram arriving on a live flow's socket is returned to the client
+    for r in &o.replies_injected {
+        let (op, f, payload, delivered, t_r) = (r.0, r.1, &r.2, r.3, r.4);
+        let dst = flows[f].1;
+        if broken[f] || o.errors_injected.iter().any(|e| e.1 == f && e.2 <= t_r) {
+            continue;
+        }
+        let is_dns = dst.port() == 53;
+        if flow_expected(&flow_events(o, f, dst), is_dns, t, t_r) != Some(true) {
+            continue;
+        }
+        if !delivered {
+            out.violate(
+                "C07",
+                format!("udp:{}:socket-released-early{}", proto, if is_dns { ":dns" } else { "" }),
+                format!("flow {} must be alive at {} us (T = {} us): its socket was gone when the reply of op {} arrived", f, t_r, t, op),
+            );
+        } else if let Ok((replies, _)) = parse_replies(&o.client_rx) {
+            if !replies.iter().any(|x| x.payload == *payload && x.src == dst) && o.still_open_at_end {
+                out.violate(
+                    "C07",
+                    format!("udp:{}:reply-not-returned{}", proto, if is_dns { ":dns" } else { "" }),
+                    format!("flow {}: the reply of op {} ({} bytes) reached the flow's socket but not the client", f, op, payload.len()),
+                );
             }
         }
     }
